@@ -1023,6 +1023,31 @@ def _is_exception(node: ast.AST) -> bool:
     return False
 
 
+def _breaks_out_of(loop: ast.For | ast.While) -> bool:
+    """Check if a loop contains a break statement that ends it.
+
+    Args:
+        loop (ast.For | ast.While): Loop to check
+
+    Returns:
+        bool: True if there is a break, at any depth, that belongs to the loop.
+    """
+    children = list(loop.body)
+    while children:
+        child = children.pop()
+        if isinstance(child, ast.Break):
+            return True
+        if isinstance(child, (ast.FunctionDef, ast.AsyncFunctionDef, ast.ClassDef)):
+            continue
+        if isinstance(child, (ast.For, ast.AsyncFor, ast.While)):
+            # A break in the else clause of an inner loop belongs to the outer loop
+            children.extend(child.orelse)
+            continue
+        children.extend(ast.iter_child_nodes(child))
+
+    return False
+
+
 def is_blocking(node: ast.AST, parent_type: ast.AST = None) -> bool:
     """Check if a node is impossible to get past.
 
@@ -1063,9 +1088,10 @@ def is_blocking(node: ast.AST, parent_type: ast.AST = None) -> bool:
             if not test_value:
                 return False
 
+            if _breaks_out_of(node):
+                return False
+
             for child in node.body:
-                if isinstance(child, ast.Break):
-                    return False
                 if is_blocking(child, type(node)):
                     return True
 
@@ -1078,6 +1104,9 @@ def is_blocking(node: ast.AST, parent_type: ast.AST = None) -> bool:
             return False
 
     if isinstance(node, (ast.For, ast.While)):
+        if _breaks_out_of(node):
+            return False
+
         for child in node.body:
             if is_blocking(child, type(node)):
                 return True
